@@ -132,6 +132,10 @@ class SeqOracle:
         """op = [code, id, sender, prio]; res = [out, len_after, empty_after]"""
         code, out = op[0], res[0]
         k = self.kind
+        if out == -6:
+            return ("panic", "operation %s panicked (%d messages held)" % ({0: "Enqueue", 4: "Enqueue", 1: "Dequeue", 2: "Len", 3: "IsEmpty"}[code], self.n()))
+        if out == -2 and code != 1:
+            return ("hang", "operation %s does not return (%d messages held)" % ({0: "Enqueue", 4: "Enqueue", 2: "Len", 3: "IsEmpty"}[code], self.n()))
         if code in (0, 4):
             m = (op[1], op[2], op[3])
             full = self.eff > 0 and self.n() >= self.eff
